@@ -60,6 +60,12 @@ var decSpecs = []decSpec{
 	{file: "pkg/handler/error.go", fn: "incrementRetryAttempt", lean: "nextRetryValue", params: "(prev : Int) (ok : Bool)", ret: "Int",
 		binds: map[string]string{},
 		drop:  []string{"prev, ok := getRetryAttempts(r)", "c := cookie.Make", "cookie.Set"}},
+	{file: "pkg/session/session.go", fn: "Session.canRefresh", lean: "sessionCanRefresh", params: "(hasData hasRefreshToken onCooldown : Bool)", ret: "Bool",
+		binds: map[string]string{"in.data != nil": "hasData", "in.data.HasRefreshToken()": "hasRefreshToken", "in.data.Metadata.IsRefreshOnCooldown()": "onCooldown"}},
+	{file: "pkg/session/session.go", fn: "Session.shouldRefresh", lean: "sessionShouldRefresh", params: "(hasData shouldRefresh : Bool)", ret: "Bool",
+		binds: map[string]string{"in.data != nil": "hasData", "in.data.Metadata.ShouldRefresh()": "shouldRefresh"}},
+	{file: "pkg/session/session.go", fn: "Session.AccessToken", lean: "sessionYieldsToken", params: "(hasData hasActiveAccessToken : Bool)", ret: "Bool", cond: "HasActiveAccessToken",
+		binds: map[string]string{"in.data != nil": "hasData", "in.data.HasActiveAccessToken()": "hasActiveAccessToken"}},
 	{file: "pkg/handler/autologin/autologin.go", fn: "AutoLogin.NeedsLogin", lean: "needsLogin",
 		params: "(enabled : Bool) (patterns : List String) (urlPath : String) (isAuthenticated : Bool) (clean : String → String) (globMatch : String → String → Bool)", ret: "Bool",
 		binds: map[string]string{"a.Enabled": "enabled", "a.IgnorePatterns": "patterns", "r.URL.Path": "urlPath", "pathlib.Clean(path)": "(clean path)"},
